@@ -351,6 +351,29 @@ pub fn walk_c12(prop: &str, route: &str, c: &Case, v: &Voronoi, rep: &mut Report
         rep.violations.push(Violation::new(prop, "c12.total", format!("{route}: face counts sum to {off} but the connectivity array has {} entries", cfc.len()), Some(c), json!({"route": route})));
         return;
     }
+    // a `VoronoiCell` is `Clone`: a copy of a cell (one cell, or `cells().to_vec()`) used with the tessellation it came from
+    // answers like the cell itself - the cell carries its own generator index, it does not depend on where it is stored
+    {
+        let copies: Vec<meshless_voronoi::VoronoiCell> = cells.to_vec();
+        let r = guarded(|| {
+            let mut bad = None;
+            for (i, (orig, copy)) in cells.iter().zip(&copies).enumerate() {
+                let same = orig.face_indices(v) == copy.face_indices(v) && orig.neighbour_ids(v).collect::<Vec<_>>() == copy.neighbour_ids(v).collect::<Vec<_>>() && orig.faces(v).count() == copy.faces(v).count();
+                let single = orig.clone();
+                let same1 = orig.neighbour_ids(v).collect::<Vec<_>>() == single.neighbour_ids(v).collect::<Vec<_>>();
+                if !(same && same1) && bad.is_none() {
+                    bad = Some(i);
+                }
+            }
+            bad
+        });
+        rep.count("cell_copies_compared", n as u64);
+        match r {
+            Ok(None) => {}
+            Ok(Some(i)) => rep.violations.push(Violation::new(prop, "c12.copy_of_cell_differs", format!("{route}: a clone of cell {i} (used with the same tessellation) lists other faces / neighbours than the cell itself"), Some(c), json!({"cell": i, "route": route}))),
+            Err(p) => rep.violations.push(Violation::new(prop, "c12.copy_of_cell_panics", format!("{route}: face_indices / neighbour_ids on a clone of a cell panicked: {}", p.message), Some(c), json!({"route": route}))),
+        }
+    }
     let mut listings: Vec<Vec<usize>> = vec![vec![]; faces.len()];
     for (i, cell) in cells.iter().enumerate() {
         let idxs = cell.face_indices(v);
